@@ -376,7 +376,8 @@ def same(text, want):
 def xquotes(node, also_plain=True):
     """quote!/quote_spanned! templates below `node`, with interpolations of *local TokenStream bindings of the
     enclosing function* (`let x = quote!(..);` defined exactly once) replaced by the tokens they stand for. Binding a
-    part of a template to a local first, or inlining such a local, gives the same expanded template."""
+    part of a template to a local first, or inlining such a local, gives the same expanded template. With
+    also_plain=False the templates that only serve as such local parts are left out."""
     import copy
     from astlib import walk, quotes_in
     fn = CURRENT_AST.enclosing_fn(node) if CURRENT_AST is not None else None
@@ -416,7 +417,10 @@ def xquotes(node, also_plain=True):
                 out.append(t)
         return out
     res = []
+    local_ids = set(id(t) for t in defs.values())
     for q in quotes_in(node):
+        if not also_plain and id(q["tokens"]) in local_ids:
+            continue
         q2 = dict(q)
         q2["tokens"] = expand(q["tokens"], 0)
         res.append(q2)
